@@ -36,7 +36,7 @@ LEVEL_TEXT = (
 
 
 def budget(tier):
-    return 6 if tier == "quick" else 120
+    return 10 if tier == "quick" else 150
 
 
 def wall_guard(tier):
@@ -45,7 +45,7 @@ def wall_guard(tier):
 
 @st.composite
 def _spec(draw, tier):
-    morph = draw(gm.morphology(tier, kinds=("network",), max_branches=4, max_ncomp=3, max_cells=3 if tier == "quick" else 4))
+    morph = draw(gm.morphology(tier, kinds=("network",), max_branches=4, max_ncomp=3, max_cells=3 if tier == "quick" else 4, ranges=gm.RANGES_DYN))
     N = gm.n_compartments(morph["cells"])
     morph["v"] = [draw(st.floats(-80.0, -30.0)) for _ in range(N)]
     chans = draw(gn.channel_placement(N, mechs=("HH", "HH", "Leak", "Na", "K"), max_ch=2, allow_rename=False))
@@ -178,9 +178,9 @@ def judge(spec, tier="quick"):
         else:
             out.violate("finite", "integrate returned non-finite voltages")
         return out
-    scale = max(1.0, float(np.max(np.abs(ref))))
-    if scale > 1e4:
-        out.filtered += 1  # numerically unstable explicit run
+    scale = max(1.0, float(np.max(np.abs(ref)))) if np.isfinite(ref).all() else np.inf
+    if scale > 300.0:
+        out.filtered += 1  # voltages far outside the physiological range: ill-posed draw
         return out
     errv = np.abs(got - ref)
     tol = 1e-6 + 1e-8 * scale
